@@ -417,6 +417,25 @@ def r23_debug_assert(sig, body):
     return sig, body, n
 
 
+def r24_entry_or_insert(sig, body):
+    """R24: `M.entry(K).or_insert(V)` -> `M.entry_or_insert(K, V)` (std HashMap entry API by contract: inserts only when the key is absent)"""
+    n = 0
+    while True:
+        m = re.search(r'\.entry\s*\(', body)
+        if not m:
+            break
+        op = m.end() - 1
+        cl = _match_paren(body, op)
+        m2 = re.match(r'\s*\.\s*or_insert\s*\(', body[cl + 1:])
+        if not m2:
+            break
+        op2 = cl + 1 + m2.end() - 1
+        cl2 = _match_paren(body, op2)
+        body = body[:m.start()] + '.entry_or_insert(%s, %s)' % (body[op + 1:cl].strip(), body[op2 + 1:cl2].strip()) + body[cl2 + 1:]
+        n += 1
+    return sig, body, n
+
+
 RULES = {
     'R1': r1_error_macro,
     'R3': r3_continue_guard,
@@ -438,6 +457,7 @@ RULES = {
     'R21': r21_opcode_cast,
     'R22': r22_write_macro,
     'R23': r23_debug_assert,
+    'R24': r24_entry_or_insert,
 }
 
 DESCRIPTIONS = {k: (v.__doc__ or '').strip() for k, v in RULES.items()}
